@@ -83,7 +83,7 @@ GROUPS += [
           bound="one data line with at most 3 further fields, 2 rows, 2 columns; every callee outside mps.c returns an arbitrary result; the field loops are completely unwound; reader buffer capacity 512",
           flags=["--no-malloc-may-fail"], must_fail=["reach_end", "reach_rejected_record", "reach_accepted_record"], functions=[real],
           props=["C18", "C11", "C17"], assumed=["mps/line_*: static handlers called through goto-cc --export-file-local-symbols; the line scanner (ILLmps_next_field / next_coef / next_bound), the symbol table lookup and the raw-problem adders are arbitrary-result stubs; GMP model variant TOKENS"])
-    for fn, real in [("col", "mps_read_col_line"), ("rhs", "add_rhs"), ("ranges", "add_ranges"), ("bounds", "add_bounds")]
+    for fn, real in [("col", "mps_read_col_line"), ("row", "add_row"), ("rhs", "add_rhs"), ("ranges", "add_ranges"), ("bounds", "add_bounds")]
 ]
 
 STATICS = ["add_row", "add_col", "add_rhs", "add_ranges", "add_bounds", "mps_fill_in"]
